@@ -79,6 +79,9 @@ Theorem C01_cone_encloses : forall h r0 r1 round o, 0 <= r0 -> 0 <= r1 ->
   @k_cone ROps h r0 r1 round = Some o -> enc3 o.
 Proof. exact cone_enc. Qed.
 Print Assumptions C01_cone_encloses.
+Theorem C01_cone : forall h r0 r1 round o, 0 <= r0 -> 0 <= r1 -> @k_cone ROps h r0 r1 round = Some o -> lbinf_3 o.
+Proof. exact cone_lbinf. Qed.
+Print Assumptions C01_cone.
 
 (* ============================================================ set combinators *)
 (* the material-removing blend PolyMax(k), k > 0, never goes below the maximum *)
@@ -189,6 +192,11 @@ Print Assumptions C01_transform3_rigid_lb2.
 Theorem C01_revolve_encloses : forall s theta o, @k_revolve ROps s theta = Some o -> enc2 s -> enc3 o.
 Proof. exact revolve_enc. Qed.
 Print Assumptions C01_revolve_encloses.
+(* full revolutions (theta = 0 mod 2 pi, i.e. Revolve3D) keep the class lbinf *)
+Theorem C01_revolve_full_lbinf : forall s theta o, Rfmod (Rabs theta) (@tau ROps) = 0 ->
+  @k_revolve ROps s theta = Some o -> lbinf_2 s -> lbinf_3 o.
+Proof. exact revolve_full_lbinf. Qed.
+Print Assumptions C01_revolve_full_lbinf.
 Theorem C01_extrude_encloses : forall s h o, 0 <= h -> @k_extrude ROps s h = Some o -> enc2 s -> enc3 o.
 Proof. exact extrude_enc. Qed.
 Print Assumptions C01_extrude_encloses.
@@ -285,6 +293,9 @@ Proof. exact (conj ex_plate_wf (conj ex_plate_builds ex_plate_enclosed)). Qed.
 (* a rotated rounded box and a rotated cylinder are in Lb2: their union may be offset and shelled *)
 Example C01_ex_rotated_box : wf3 ex_rotated_box /\ forall o, @build3 ROps ex_rotated_box = Some o -> enc3 o.
 Proof. exact (conj ex_rotated_box_wf ex_rotated_box_enclosed). Qed.
+(* offset of a torus (Revolve with theta = 0) intersected with a rounded cone *)
+Example C01_ex_torus : wf3 ex_torus /\ forall o, @build3 ROps ex_torus = Some o -> enc3 o.
+Proof. exact (conj ex_torus_wf ex_torus_enclosed). Qed.
 Example C01_ex_ring : wf3 ex_ring /\ forall o, @build3 ROps ex_ring = Some o -> enc3 o.
 Proof. exact (conj ex_ring_wf ex_ring_enclosed). Qed.
 Example C01_ex_twisted_slice : wf3 ex_twisted_slice /\ forall o, @build3 ROps ex_twisted_slice = Some o -> enc3 o.
